@@ -104,13 +104,213 @@ def _is_len_of(expr, name):
     return False
 
 
-def _factor_kind(e, xname):
+def _factor_kind(e, xname, defs=None, depth=0):
     txt = ast.unparse(e).replace(" ", "")
     if txt in (f"len({xname})", "len(candidates)", f"{xname}.shape[0]", "candidates.shape[0]", "len(y)", "y.shape[0]"):
         return "samples"
     if txt in ("len(y.T)", "y.shape[1]", "len(annotators)", "n_annotators", "y.T.shape[0]"):
         return "annotators"
+    if isinstance(e, ast.Name) and defs and depth < 4 and len(defs.get(e.id, ())) == 1:
+        return _factor_kind(defs[e.id][0], xname, defs, depth + 1)
+    if isinstance(e, ast.IfExp) and isinstance(e.test, ast.Compare) and len(e.test.ops) == 1 \
+            and isinstance(e.test.left, ast.Name) and e.test.left.id == "candidates" \
+            and isinstance(e.test.comparators[0], ast.Constant) and e.test.comparators[0].value is None:
+        none_arm, given_arm = (e.body, e.orelse) if isinstance(e.test.ops[0], ast.Is) else (e.orelse, e.body)
+        kn, kg = _factor_kind(none_arm, xname, defs, depth + 1), _factor_kind(given_arm, xname, defs, depth + 1)
+        if kn == kg == "samples" and not _is_len_of(none_arm, "candidates") and not _is_len_of(given_arm, xname):
+            return "samples"
+        if kn == kg == "annotators":
+            return "annotators"
+        return "case-mismatch"
     return None
+
+
+def _local_defs(fnode):
+    out = {}
+    for n in ast.walk(fnode):
+        if isinstance(n, ast.Assign) and len(n.targets) == 1 and isinstance(n.targets[0], ast.Name):
+            out.setdefault(n.targets[0].id, []).append(n.value)
+        elif isinstance(n, (ast.AugAssign, ast.For)):
+            for t in ast.walk(n.target):
+                if isinstance(t, ast.Name):
+                    out.setdefault(t.id, []).extend([None, None])
+    return out
+
+
+# ---------------------------------------------------------------------------
+# 3-valued evaluation of the candidates x annotators case split
+KINDS = ("none", "1d", "2d")
+
+
+def eval3(t, env):
+    """True / False / None(unknown) for a test over the argument kinds in env
+    (name -> "none" | "1d" | "2d" | "array")."""
+    if isinstance(t, ast.UnaryOp) and isinstance(t.op, ast.Not):
+        v = eval3(t.operand, env)
+        return None if v is None else (not v)
+    if isinstance(t, ast.BoolOp):
+        vals = []
+        for v in t.values:
+            r = eval3(v, env)
+            if isinstance(t.op, ast.And) and r is False:
+                return False
+            if isinstance(t.op, ast.Or) and r is True:
+                return True
+            vals.append(r)
+        if any(v is None for v in vals):
+            return None
+        return all(vals) if isinstance(t.op, ast.And) else any(vals)
+    if isinstance(t, ast.Compare) and len(t.ops) == 1:
+        l, r, op = t.left, t.comparators[0], t.ops[0]
+        if isinstance(l, ast.Name) and l.id in env and isinstance(r, ast.Constant) and r.value is None \
+                and isinstance(op, (ast.Is, ast.IsNot, ast.Eq, ast.NotEq)):
+            isn = env[l.id] == "none"
+            return isn if isinstance(op, (ast.Is, ast.Eq)) else not isn
+        if isinstance(l, ast.Attribute) and l.attr == "ndim" and isinstance(l.value, ast.Name) and l.value.id in env \
+                and isinstance(r, ast.Constant) and isinstance(r.value, int) and isinstance(op, (ast.Eq, ast.NotEq)):
+            k = env[l.value.id]
+            if k in ("1d", "2d"):
+                eq = int(k[0]) == r.value
+                return eq if isinstance(op, ast.Eq) else not eq
+            return None
+    return None
+
+
+def _terminates(body):
+    return bool(body) and isinstance(body[-1], (ast.Return, ast.Raise))
+
+
+def run_cases(stmts, env, outcomes, depth=0):
+    """Execute a statement list over one argument case, path by path; record for every
+    reachable `return a, b, c` whether b is None.  Returns the environments that fall
+    through the end of the list."""
+    envs = [dict(env)]
+    for st in stmts:
+        nxt = []
+        for env in envs:
+            if isinstance(st, ast.Return):
+                if isinstance(st.value, ast.Tuple) and len(st.value.elts) == 3:
+                    e = st.value.elts[1]
+                    if isinstance(e, ast.Constant) and e.value is None:
+                        outcomes.add("none")
+                    elif isinstance(e, ast.Name) and env.get(e.id) == "none":
+                        outcomes.add("none")
+                    else:
+                        outcomes.add("exists")
+                else:
+                    outcomes.add("?")
+                continue
+            if isinstance(st, ast.Raise):
+                continue
+            if isinstance(st, ast.Assign) and len(st.targets) == 1 and isinstance(st.targets[0], ast.Name):
+                v = st.value
+                env = dict(env)
+                if isinstance(v, ast.Constant) and v.value is None:
+                    env[st.targets[0].id] = "none"
+                elif isinstance(v, ast.Name) and v.id in env:
+                    env[st.targets[0].id] = env[v.id]
+                elif st.targets[0].id in env:
+                    env[st.targets[0].id] = "array"
+                nxt.append(env)
+                continue
+            if isinstance(st, ast.If):
+                r = eval3(st.test, env)
+                if r is not False:
+                    nxt += run_cases(st.body, env, outcomes, depth + 1)
+                if r is not True:
+                    nxt += run_cases(st.orelse, env, outcomes, depth + 1)
+                continue
+            nxt.append(env)
+        # de-duplicate
+        seen, envs = set(), []
+        for e in nxt:
+            k = tuple(sorted(e.items()))
+            if k not in seen:
+                seen.add(k)
+                envs.append(e)
+        if not envs:
+            break
+    return envs
+
+
+def mapping_table(tc):
+    ps = [a for a in tc.params() if a != "self"]
+    cn, an = ps[0], ps[1]
+    table = {}
+    for c in KINDS:
+        for a in KINDS:
+            out = set()
+            run_cases(tc.node.body, {cn: c, an: a}, out)
+            table[(c, a)] = out
+    return table
+
+
+def path_condition(tree, stmt):
+    """[(test, polarity)] under which stmt executes: enclosing If branches and
+    preceding sibling `if t: ...return/raise` guards."""
+    conds = []
+    cur = stmt
+    while True:
+        blk = tree.block_of.get(cur)
+        if blk is None:
+            break
+        owner, field, idx = blk
+        sibs = getattr(owner, field) if not isinstance(owner, ast.FunctionDef) or field == "body" else []
+        for prev in sibs[:idx]:
+            if isinstance(prev, ast.If) and _terminates(prev.body) and not prev.orelse:
+                conds.append((prev.test, False))
+            elif isinstance(prev, ast.If) and prev.orelse and _terminates(prev.orelse) and not _terminates(prev.body):
+                conds.append((prev.test, True))
+        if isinstance(owner, ast.If):
+            conds.append((owner.test, field == "body"))
+        if isinstance(owner, ast.FunctionDef):
+            break
+        cur = owner
+    return conds
+
+
+def check_translation_cases(report, rule, tc, fq, roles, call):
+    """Every statement that indexes with / through the mapping runs on exactly the
+    argument cases in which _transform_cand_annot returns a mapping."""
+    table = mapping_table(tc)
+    bad_table = {k: v for k, v in table.items() if v not in ({"none"}, {"exists"})}
+    mp = roles[1]
+    args = call.args
+    kw = {k.arg: k.value for k in call.keywords}
+    ps = [a for a in tc.params() if a != "self"]
+    cexpr = args[0] if args else kw.get(ps[0])
+    aexpr = args[1] if len(args) > 1 else kw.get(ps[1])
+    if not isinstance(cexpr, ast.Name) or not isinstance(aexpr, ast.Name) or bad_table:
+        report.add(rule, fq.qual, "mapping case table derivable", f"{fq.file}:{call.lineno}", False,
+                   detail=f"table={ {k: sorted(v) for k, v in bad_table.items()} } call={ast.unparse(call)[:80]}")
+        return
+    tree = FuncTree(fq.node)
+    sites = []
+    for n in ast.walk(fq.node):
+        if isinstance(n, ast.Assign) and n.lineno > call.lineno:
+            # results leave candidate space by a scatter `out[.., mapping, ..] = res` or an index
+            # translation `mapping[idx]`; gathers INTO candidate space (A_perf rows) are not judged here
+            uses = [x for x in ast.walk(n.value) if isinstance(x, ast.Subscript) and isinstance(x.value, ast.Name)
+                    and x.value.id == mp]
+            uses += [t for t in n.targets if isinstance(t, ast.Subscript) and mp in names_in(t.slice)]
+            if uses:
+                sites.append(n)
+    for n in sites:
+        conds = path_condition(tree, n)
+        wrong = []
+        for (c, a), out in sorted(table.items()):
+            env = {cexpr.id: c, aexpr.id: a, mp: "none" if out == {"none"} else "array"}
+            vals = [(eval3(t, env), pol) for t, pol in conds]
+            definitely_not = any(v is not None and v != pol for v, pol in vals)
+            definitely = all(v is not None and v == pol for v, pol in vals)
+            if out == {"exists"} and definitely_not:
+                wrong.append(f"candidates={c}, annotators={a}: a mapping exists but the translation is skipped")
+            if out == {"none"} and definitely and conds:
+                wrong.append(f"candidates={c}, annotators={a}: there is no mapping but the translation runs")
+        report.add(rule, fq.qual, f"`{norm_stmt(n, 60)}` runs exactly when a mapping exists", f"{fq.file}:{n.lineno}",
+                   not wrong, detail="; ".join(wrong[:3]) if wrong else
+                   "guard agrees with _transform_cand_annot on all 9 candidates x annotators cases")
+
 
 
 def avail_names_early(tc):
@@ -148,8 +348,10 @@ def run(p, report, tier):
         da = DefiniteAssignment(_it(f.node)).run()
         report.add("R7.1", f.qual, "results definitely assigned on all 3x3 argument combinations", f"{f.file}:{f.node.lineno}",
                    not da.reports, detail="; ".join(f"{k} unbound where {v[1]}" for k, v in da.reports.items()))
-    ok, why = c01.has_clip(vd.node, "batch_size")
+    ok, why = c01.has_clip(vd.node, "batch_size", resolve=c01.helper_resolver(p, vd))
     report.add("R7.1", vd.qual, "batch_size clipped to the number of candidate pairs", f"{vd.file}:{vd.node.lineno}", ok, detail=why)
+    c01.check_clip_bound_counts_rows(report, "R7.1", vd, "batch_size", two_d=("candidates", "X", "y"))
+    c01.check_indices_results(p, report, "R7.1")
     # the clip bound is assigned in every branch of the annotators x candidates split
     # case-split agreement: both methods test the same atoms on candidates/annotators
     def atoms(fn):
@@ -204,7 +406,8 @@ def run(p, report, tier):
             if cand_none and _is_len_of(stmt.value, "candidates"):
                 bad = "candidates is None on this path but len(candidates) is used"
             if bad is None and fn is vd and isinstance(stmt.value, ast.BinOp) and isinstance(stmt.value.op, ast.Mult):
-                kinds = [_factor_kind(stmt.value.left, xname), _factor_kind(stmt.value.right, xname)]
+                defs = _local_defs(fn.node)
+                kinds = [_factor_kind(stmt.value.left, xname, defs), _factor_kind(stmt.value.right, xname, defs)]
                 if sorted(k for k in kinds if k) != ["annotators", "samples"]:
                     bad = f"a pair count is (number of samples) x (number of annotators); found factors {kinds}"
             key = (id(stmt))
@@ -315,6 +518,11 @@ def run(p, report, tier):
                 guarded = True
     report.add("R7.5", sq.qual, "untranslated result is returned only when there is no mapping", f"{sq.file}:{sq.node.lineno}",
                guarded or not none_ret)
+    for fq, roles in ((ie, ie_roles), (sq, sq_roles)):
+        tcall = next((n.value for n in ast.walk(fq.node) if isinstance(n, ast.Assign) and isinstance(n.value, ast.Call)
+                      and c01.callname(n.value) == "_transform_cand_annot"), None)
+        if tcall is not None and roles[1] is not None:
+            check_translation_cases(report, "R7.5", tc, fq, roles, tcall)
     for fq in (ie, sq):
         ff = c01.FnFacts(fq)
         before = len(report.obligations)
